@@ -83,6 +83,20 @@ func (c10) Gen(rng *simrt.Rand, tier string, run int) interface{} {
 	if rng.Chance(1, 3) {
 		nAddr = 1
 	}
+	// one plan in six: a larger disk, addresses a power of two apart (striped
+	// locks and counters, chunked growth) and one client that writes a long run
+	// of blocks (write buffers that fill up)
+	var pool []uint64
+	bulk := false
+	if rng.Chance(1, 6) {
+		p.Size = rng.PickU64(17, 40, 65, 130)
+		stride := rng.PickU64(16, 16, 32, 64)
+		for a := uint64(rng.Intn(2)); a < p.Size && len(pool) < 4; a += stride {
+			pool = append(pool, a)
+		}
+		pool = append(pool, uint64(rng.Intn(int(p.Size))))
+		bulk = rng.Chance(1, 2)
+	}
 	nClients := 2 + rng.Intn(3)
 	// a tiny content alphabet in a third of the plans: the same block content is
 	// written again and again (content-addressed shortcuts, caches keyed by value)
@@ -98,6 +112,9 @@ func (c10) Gen(rng *simrt.Rand, tier string, run int) interface{} {
 			a := uint64(rng.Intn(nAddr))
 			if a >= p.Size {
 				a = p.Size - 1
+			}
+			if pool != nil {
+				a = pool[rng.Intn(len(pool))]
 			}
 			if rng.Chance(1, 25) {
 				a = p.Size + uint64(rng.Intn(2)) // out of range: must be refused
@@ -120,6 +137,30 @@ func (c10) Gen(rng *simrt.Rand, tier string, run int) interface{} {
 			default:
 				ops = append(ops, DiskOp{Kind: "size"})
 			}
+		}
+		p.Clients = append(p.Clients, ops)
+	}
+	if bulk {
+		// the other clients keep reading meanwhile
+		for c := range p.Clients {
+			for k := 40 + rng.Intn(40); k > 0; k-- {
+				a := pool[rng.Intn(len(pool))]
+				if rng.Chance(1, 2) {
+					a = (a + uint64(rng.Intn(40))) % p.Size
+				}
+				p.Clients[c] = append(p.Clients[c], DiskOp{Kind: rng.PickStr("read", "readto"), Addr: a})
+			}
+		}
+		// 34-70 writes in a row by one more client, over the pool and its neighbours
+		var ops []DiskOp
+		n := 34 + rng.Intn(37)
+		for i := 0; i < n; i++ {
+			id++
+			a := (pool[rng.Intn(len(pool))] + uint64(i)) % p.Size
+			if rng.Chance(1, 3) {
+				a = pool[rng.Intn(len(pool))]
+			}
+			ops = append(ops, DiskOp{Kind: "write", Addr: a, ID: 0x9000 + id})
 		}
 		p.Clients = append(p.Clients, ops)
 	}
